@@ -12,6 +12,7 @@ package validation
 //verif:assume the wall clock is a single arbitrary instant during one validation (override of time.Now for the solver; the native replay uses the real clock and places the header timestamp relative to it)
 //verif:assume the checkpoint's timestamp is not after the parent block's timestamp (it is the timestamp of an ancestor)
 //verif:assume ed25519: XPrv.Sign returns arbitrary bytes for the solver and XPub.Verify is an uninterpreted predicate constrained by: a signature verifies under the key that made it and under no other key (real signing and verification in the native replay); SHA3 uninterpreted and collision-free
+//verif:bound block (thorough): a valid coinbase transaction followed by one spend transaction (one input, one output, arbitrary assets, amounts, source position, serialized size below 2^32) and an arbitrary or correct merkle root
 //verif:assume bc.Hash.String (protobuf text form, used for a log line only) is cut
 //verif:assume heights below 2^62: no uint64 wrap-around of creation height + pending period
 //verif:outside where in a chain or fork Chain.ProcessBlock runs these checks (orphan handling, reorganisation: goroutines and the store); validator sets elected by votes (sort.Slice over a map, not encodable); reward-height coinbase amounts (hex-keyed map of control programs); blocks with more than the coinbase transaction in ValidateBlock (transaction validity itself is C01/C02)
@@ -23,9 +24,12 @@ package validation
 //verif:obligation fn=VerifC13Header args=0 validate=12 mode=int
 //verif:obligation fn=VerifC13Block args=0;1 validate=12 mode=int
 //verif:override (*github.com/bytom/bytom/protocol/bc.Hash).String -> verifC13HashString
+//verif:obligation fn=VerifC13BlockTx args=0 mode=int tier=thorough secs=3000
 
 import (
 	"time"
+
+	"golang.org/x/crypto/sha3"
 
 	"github.com/bytom/bytom/consensus"
 	"github.com/bytom/bytom/crypto/ed25519/chainkd"
@@ -298,5 +302,66 @@ func VerifC13Block(outKind int) {
 		ok := outKind == 0 && asset == *consensus.BTMAssetID && amount == 0 && b.TransactionsMerkleRoot == root
 		verifAssert(!ok, "valid-block-accepted")
 		verifReach("VerifC13Block:rejected")
+	}
+}
+
+// a block of a valid coinbase transaction and one arbitrary spend transaction:
+// the block is accepted exactly if that transaction is valid on its own and the
+// merkle root field is the root of the two transaction ids
+func VerifC13BlockTx(_ int) {
+	verifC13Clock = int64(verifU64("now.sec"))
+	verifAssume(verifC13Clock >= 10 && verifC13Clock < 1<<33)
+	now := uint64(time.Now().UnixNano() / 1e6)
+	prvs := []chainkd.XPrv{chainkd.XPrv(verifC13Unhex(verifC13Prv0)), chainkd.XPrv(verifC13Unhex(verifC13Prv1))}
+	fed := []chainkd.XPub{chainkd.XPub(verifC13Unhex(verifC13Pub0)), chainkd.XPub(verifC13Unhex(verifC13Pub1))}
+	consensus.ActiveNetParams.FederationXpubs = fed
+	interval := consensus.ActiveNetParams.BlockTimeInterval
+	height := uint64(7)
+	parent := &types.BlockHeader{Version: 1, Height: height - 1, Timestamp: now - interval}
+	cp := &state.Checkpoint{Status: state.Growing, Timestamp: now - interval, Rewards: map[string]uint64{}}
+	m := ^uint64(0)
+	coinbase := types.NewTx(types.TxData{
+		Version:        1,
+		SerializedSize: 100,
+		Inputs:         []*types.TxInput{types.NewCoinbaseInput([]byte{1, 2, 3})},
+		Outputs:        []*types.TxOutput{types.NewOriginalTxOutput(*consensus.BTMAssetID, 0, []byte{0x51}, nil)},
+	})
+	// the serialized size is the byte length of the wire form
+	size := verifU64("size")
+	verifAssume(size < 1<<32)
+	spend := types.NewTx(types.TxData{
+		Version:        1,
+		SerializedSize: size,
+		Inputs: []*types.TxInput{types.NewSpendInput(nil, bc.NewHash(sha3.Sum256([]byte{1})), bc.AssetID{V0: verifU64("in.asset"), V1: m, V2: m, V3: m},
+			verifU64("in.amount"), verifU64("in.pos"), []byte{0x51}, nil)},
+		Outputs: []*types.TxOutput{types.NewOriginalTxOutput(bc.AssetID{V0: verifU64("out.asset"), V1: m, V2: m, V3: m}, verifU64("out.amount"), []byte{0x51}, nil)},
+	})
+	root, _ := types.TxMerkleRoot([]*bc.Tx{coinbase.Tx, spend.Tx})
+	b := &types.Block{
+		BlockHeader:  types.BlockHeader{Version: 1, Height: height, PreviousBlockHash: parent.Hash(), Timestamp: now},
+		Transactions: []*types.Tx{coinbase, spend},
+	}
+	b.TransactionsMerkleRoot = bc.Hash{V0: verifU64("root0"), V1: verifU64("root1"), V2: verifU64("root2"), V3: verifU64("root3")}
+	if verifBool("root.correct") {
+		b.TransactionsMerkleRoot = root
+	}
+	msg := b.BlockHeader.Hash().Bytes()
+	b.BlockWitness = prvs[0].Sign(msg)
+	verifAssume(fed[0].Verify(msg, b.BlockWitness) && !fed[1].Verify(msg, b.BlockWitness))
+	conv := func(prog []byte) ([]byte, error) { return nil, nil }
+
+	err := ValidateBlock(b, parent, cp, conv)
+
+	verifObserveBool("accepted", err == nil)
+	bcBlock := types.MapBlock(b)
+	gas, txErr := ValidateTx(spend.Tx, bcBlock, conv)
+	if err == nil {
+		verifAssert(txErr == nil, "block-with-invalid-transaction-rejected")
+		verifAssert(txErr != nil || uint64(gas.GasUsed) <= consensus.MaxBlockGas, "gas-limit-rule")
+		verifAssert(b.TransactionsMerkleRoot == root, "merkle-root-rule")
+		verifReach("VerifC13BlockTx:accepted")
+	} else {
+		verifAssert(txErr != nil || b.TransactionsMerkleRoot != root || uint64(gas.GasUsed) > consensus.MaxBlockGas, "valid-block-accepted")
+		verifReach("VerifC13BlockTx:rejected")
 	}
 }
